@@ -81,20 +81,67 @@ func c02MapWalk(c *Ctx, prop string) {
 				}
 				k++
 				n++
+				// the condition is classified by what it DIRECTLY tests: the first length byte of the remaining name
+				// against zero (root test), or a value handed back by a lookup call (its error, its data, the length of
+				// its data). A test of anything else — a counter, the number of keys collected so far (seeds c02d,
+				// c03r4i) — is a private stop condition even if its operands were computed from the name.
 				kind := ""
-				for v := range backSlice(iff.Cond, nil) {
-					switch x := v.(type) {
-					case *ssa.Call:
-						if _, isB := x.Call.Value.(*ssa.Builtin); !isB {
-							kind = "lookup-result"
-						}
-					case *ssa.IndexAddr:
-						if kk, isK := constInt(x.Index); isK && kk == 0 && strings.Contains(x.X.Type().String(), "[]byte") && kind == "" {
-							kind = "root-test"
-						}
+				var direct func(v ssa.Value, depth int) string
+				direct = func(v ssa.Value, depth int) string {
+					if depth > 6 {
+						return ""
 					}
+					switch x := unwrap(v).(type) {
+					case *ssa.UnOp:
+						if x.Op == token.NOT {
+							return direct(x.X, depth+1)
+						}
+						if x.Op == token.MUL {
+							if ia, ok := x.X.(*ssa.IndexAddr); ok {
+								if kk, isK := constInt(ia.Index); isK && kk == 0 && strings.Contains(ia.X.Type().String(), "[]byte") {
+									return "root-test"
+								}
+							}
+						}
+					case *ssa.BinOp:
+						_, xc := x.X.(*ssa.Const)
+						_, yc := x.Y.(*ssa.Const)
+						switch {
+						case yc:
+							return direct(x.X, depth+1)
+						case xc:
+							return direct(x.Y, depth+1)
+						}
+					case *ssa.Extract:
+						return direct(x.Tuple, depth+1)
+					case *ssa.Call:
+						if bi, isB := x.Call.Value.(*ssa.Builtin); isB {
+							if bi.Name() == "len" && len(x.Call.Args) == 1 {
+								if r := direct(x.Call.Args[0], depth+1); r == "lookup-result" {
+									return r
+								}
+							}
+							return ""
+						}
+						return "lookup-result"
+					case *ssa.Phi:
+						r := ""
+						for _, e := range x.Edges {
+							if k, isK := e.(*ssa.Const); isK && (k.Value == nil || k.Type().String() == "bool") {
+								continue
+							}
+							d := direct(e, depth+1)
+							if d == "" {
+								return ""
+							}
+							r = d
+						}
+						return r
+					}
+					return ""
 				}
-				c.Check(rule, fmt.Sprintf("%s.FindMap|exit@%s", name, describeCond(iff.Cond)), kind != "", iff.Cond.Pos(), "way out of the label walk: "+kind+" (allowed: root test, lookup result)")
+				kind = direct(iff.Cond, 0)
+				c.Check(rule, fmt.Sprintf("%s.FindMap|exit#%d@%s", name, k, describeCond(iff.Cond)), kind != "", iff.Cond.Pos(), "way out of the label walk: "+kind+" (allowed: root test, lookup result)")
 			}
 			_ = h
 		}
@@ -238,6 +285,72 @@ func c02ClosestExact(c *Ctx, rule string) {
 			}
 		}
 		c.Check(rule, fmt.Sprintf("%s|value-as-answer#%d|under-exact-key-match", fnName(fn), n), exact, leaf.V.Pos(), "the closest key's value is the answer only when the closest key IS the key searched for")
+	}
+	c.Floor(rule, 1)
+}
+
+// c02DriverFeature implements C02.driver-feature: which reader a RocksDB driver uses (label by label or closest key) is
+// decided by the key layout OF THE DATABASE IT HOLDS. Every rdbdriver value gets its layout flag from
+// IsV2KeySyntaxUsed() asked of the very handle stored in its db field; a flag carried over from another driver (seed
+// c02r4i: a full reload keeping the running driver's flag) reads a v1 database with the v2 reader or vice versa, and
+// every query is REFUSED.
+func c02DriverFeature(c *Ctx) {
+	rule := "C02.driver-feature"
+	c.Rule(rule, "A8: every store to rdbdriver's key-layout flag (the bool field that selects the reader) is the result of (*rdb.RDB).IsV2KeySyntaxUsed called on the value stored into the db field of the same driver value")
+	named := c.Named("db", "rdbdriver")
+	st := structOf(named)
+	var fFlag, fDB *types.Var
+	for i := 0; st != nil && i < st.NumFields(); i++ {
+		f := st.Field(i)
+		if bt, ok := f.Type().Underlying().(*types.Basic); ok && bt.Kind() == types.Bool {
+			fFlag = f
+		}
+		if strings.HasSuffix(f.Type().String(), "rdb.RDB") {
+			fDB = f
+		}
+	}
+	if fFlag == nil || fDB == nil {
+		c.Undecided(rule, "rdbdriver|fields", token.NoPos, "layout flag / database handle fields not found")
+		return
+	}
+	n := 0
+	for _, fn := range c.OurFuncs("db") {
+		for _, stf := range storesToField(fn, fFlag) {
+			n++
+			c.Examined(fn)
+			fa := stf.Addr.(*ssa.FieldAddr)
+			// the handle stored into the same driver value
+			var handles []ssa.Value
+			for _, st2 := range storesToField(fn, fDB) {
+				if st2.Addr.(*ssa.FieldAddr).X == fa.X {
+					handles = append(handles, st2.Val)
+				}
+			}
+			ok := false
+			for s := range sourcesOf(stf.Val) {
+				call, _ := callOfValue(s)
+				if call == nil {
+					ok = false
+					break
+				}
+				f := calleeOf(call.Common())
+				if f == nil || f.Name() != "IsV2KeySyntaxUsed" || len(call.Call.Args) == 0 {
+					ok = false
+					break
+				}
+				same := false
+				for _, h := range handles {
+					if sameSources(h, call.Call.Args[0]) {
+						same = true
+					}
+				}
+				ok = same
+				if !ok {
+					break
+				}
+			}
+			c.Check(rule, fmt.Sprintf("%s|flag-store#%d|asked-of-its-own-database", fnName(fn), n), ok, stf.Pos(), "the driver's key-layout flag comes from the features key of the database the driver holds")
+		}
 	}
 	c.Floor(rule, 1)
 }
